@@ -7,7 +7,11 @@ mod c05;
 mod c08;
 mod c09;
 mod c10;
+mod c11;
+mod c12;
 mod c15;
+mod c18;
+mod c20;
 mod common;
 mod e1;
 mod e2;
@@ -35,7 +39,11 @@ macro_rules! dispatch {
             "C08" => c08::$f($($a),*),
             "C09" => c09::$f($($a),*),
             "C10" => c10::$f($($a),*),
+            "C11" => c11::$f($($a),*),
+            "C12" => c12::$f($($a),*),
             "C15" => c15::$f($($a),*),
+            "C18" => c18::$f($($a),*),
+            "C20" => c20::$f($($a),*),
             _ => { eprintln!("unknown property {}", $id); std::process::exit(2) }
         }
     };
